@@ -4,7 +4,7 @@ from threading import Lock
 import logging
 from concurrent.futures import Future
 
-from .base import chain_cancel, weak_callback
+from .base import chain_cancel, weak_callback, notify_cancel
 from ..common import copy_future_exception, try_set_result
 from .check import ensure_futures
 from ..logwrap import LogWrapper
@@ -22,6 +22,7 @@ class BoolOperation(object):
         self.done = False
         self.lock = Lock()
         self.out = Future()
+        notify_cancel(self.out)
 
         for f in fs:
             chain_cancel(self.out, f)
@@ -49,9 +50,7 @@ class BoolOperation(object):
             copy_future_exception(f, self.out)
 
         for to_cancel in cancel_futures:
-            if to_cancel.cancel() and to_cancel is self.out:
-                # wake anyone blocked in wait() / as_completed() on the output
-                self.out.set_running_or_notify_cancel()
+            to_cancel.cancel()
 
 
 class OrOperation(BoolOperation):
